@@ -3,7 +3,7 @@
 (* (identifier x per-variant rename x payload kind) next to two fixed variants, under every          *)
 (* rename_all rule, several tag/content key pairs, optionally generic or self-recursive.             *)
 EXTENDS SerdeAttrs, TLC, Json
-CONSTANTS Idents, Renames, Kinds, RuleSet, TagPairs, Flavours, Spellings
+CONSTANTS Idents, Renames, Kinds, RuleSet, TagPairs, Flavours, Spellings, Collisions
 VARIABLES c
 
 Chars(n) == CASE n = "A" -> <<"A">>
@@ -42,7 +42,7 @@ PairOf(n) == CASE n = "type_content" -> <<"type", "content">>
                [] n = "myTag_my_content" -> <<"myTag", "my_content">>
 
 Init == c \in [enum : {"unit", "tagged"}, ident : Idents, rename : Renames, kind : Kinds, rule : RuleSet,
-               tags : TagPairs, flavour : Flavours, spelling : Spellings]
+               tags : TagPairs, flavour : Flavours, spelling : Spellings, collide : Collisions]
 Next == UNCHANGED c
 
 RECURSIVE Str(_)
@@ -51,7 +51,16 @@ Str(s) == IF s = <<>> THEN "" ELSE s[1] \o Str(Tail(s))
 \* spelling: how the CONTAINER arguments (tag, content, rename_all) are spread over #[serde(..)] attributes; serde merges every
 \* #[serde(..)] attribute of the item, so the wire strings do not depend on it: merged / split (tag + content, then rename_all) /
 \* split_rev (rename_all first) / apart (an unrelated serde argument and a doc comment first, then one attribute per argument)
-InScope == /\ (c.enum = "unit" => (c.kind = "unit" /\ c.tags = "type_content" /\ c.flavour = "plain"))
+\* collide: three more variants whose wire names are distinct for serde but collapse (pairwise, or two of them onto the third's
+\* de-duplicated spelling) when a backend derives identifiers from them: every variant still has exactly one case with its own wire
+CollSet(n) == CASE n = "not3" -> << <<"n","o","t">>, <<"N","O","T">>, <<"n","o","t","!">> >>
+                [] n = "xy3" -> << <<"x","-","y">>, <<"x","_","y">>, <<"x","Y">> >>
+                [] n = "ab4" -> << <<"a","b">>, <<"A","B">>, <<"a","b","_">>, <<"a","b","!">> >>
+                [] OTHER -> <<>>
+CollIdents == <<"Ca", "Cb", "Cc", "Cd">>
+InScope == /\ (c.collide # "none" => (c.enum = "tagged" /\ c.flavour = "plain" /\ c.spelling = "merged" /\ c.rename = "none" /\ c.rule = "none"
+                                        /\ c.tags = "type_content" /\ c.ident = "Foo"))
+           /\ (c.enum = "unit" => (c.kind = "unit" /\ c.tags = "type_content" /\ c.flavour = "plain"))
            /\ (c.spelling # "merged" => (c.flavour = "plain" /\ c.tags = "type_content" /\ c.rename = "none"))
 Extra == IF c.enum = "unit" THEN << <<"Other", "unit">> >>
          ELSE << <<"Other", "unit">>, <<"Last", "newtype">> >>
@@ -59,5 +68,7 @@ Extra == IF c.enum = "unit" THEN << <<"Other", "unit">> >>
                \o (IF c.flavour = "generic" THEN << <<"GenV", "newtype">> >> ELSE <<>>)
 Wires == << Str(VariantWire(Chars(c.ident), RenameOf(c.rename), c.rule)) >>
             \o [i \in 1..Len(Extra) |-> Str(VariantWire(Chars(Extra[i][1]), None, c.rule))]
-Emit == InScope => PrintT(<<"REPLAY", ToJson([case |-> c, wires |-> Wires, tag |-> PairOf(c.tags)[1], content |-> PairOf(c.tags)[2]])>>)
+            \o [i \in 1..Len(CollSet(c.collide)) |-> Str(CollSet(c.collide)[i])]
+Colliding == [i \in 1..Len(CollSet(c.collide)) |-> [ident |-> CollIdents[i], rename |-> Str(CollSet(c.collide)[i])]]
+Emit == InScope => PrintT(<<"REPLAY", ToJson([case |-> c, wires |-> Wires, colliding |-> Colliding, tag |-> PairOf(c.tags)[1], content |-> PairOf(c.tags)[2]])>>)
 =============================================================================
